@@ -30,7 +30,7 @@ PROP = "C15"
 RUNS = {"quick": [("index", "SeqIndex_index"), ("xslice", "SeqIndex_xslice"), ("slice", "SeqIndex_slice")],
         "thorough": [("index", "SeqIndex_index_big"), ("slice", "SeqIndex_slice_mixed"), ("xslice", "SeqIndex_xslice_big"),
                      ("slice", "SeqIndex_slice_big")]}
-CHUNK = 120000
+CHUNK = 40000
 
 
 class R(object):
@@ -100,7 +100,7 @@ def realise_index(rec, rng, out, skipped):
                     keys = [{L.ONONE: (None, "none"), L.OFLOAT: (1.5, "float"), L.OSTR: ("a", "str"),
                              L.OFALSE: (False, "bool"), L.OTRUE: (True, "bool")}[v]]
                 for k, kc in keys:
-                    out.append(R("c15idx", "%s_%s_obj" % (op, d), [k], op, kind, n, fl, k, val,
+                    out.append(R(L.module_of("i", d), "%s_%s_obj" % (op, d), [k], op, kind, n, fl, k, val,
                                  base, dict(itype="obj", key=kc), ref))
             elif t == "const":
                 rv = L.real_value("const", v)
@@ -108,12 +108,12 @@ def realise_index(rec, rng, out, skipped):
                 if nm is None:
                     skipped[0] += 1
                     continue
-                out.append(R("c15idx", "%sk_%s_%s" % (op, d, nm), [], op, kind, n, fl, rv, val,
+                out.append(R(L.module_of("i", d), "%sk_%s_%s" % (op, d, nm), [], op, kind, n, fl, rv, val,
                              base, dict(itype="const", key=key_class(v)), ref))
             else:
                 for tag, _ct, bits, signed, _m in L.RT_BY_MODEL[t]:
                     rv = L.real_value(t, v, bits, signed)
-                    out.append(R("c15idx", "%s_%s_%s" % (op, d, tag), [rv], op, kind, n, fl, rv, val,
+                    out.append(R(L.module_of("i", d), "%s_%s_%s" % (op, d, tag), [rv], op, kind, n, fl, rv, val,
                                  base, dict(itype=tag, key=key_class(v)), ref))
 
 
@@ -135,7 +135,7 @@ def realise_slice(rec, rng, out, skipped):
     c, op, n, m = cse["c"], cse["op"], cse["n"], cse["m"]
     d, kind = L.decl_of(c), c["kind"]
     fs, pa, ca = bound(cse["sb"])
-    kmod = "c15ka" if d in "LTS" else "c15kb"
+    kmod = L.module_of("k", d)
     for ks, cl in rec["row"].items():
         fe, pb, cb = bound(int(ks))
         ref, imp, hz = cell(cl)
@@ -144,9 +144,9 @@ def realise_slice(rec, rng, out, skipped):
         for fl in flavors(c, op):
             val = L.new_values(kind, m, fl, cse["rhs"]) if op == "set" else None
             key = slice(pa, pb)
-            out.append(R("c15sl", "s%s_%s_%s%s" % (op, d, fs, fe), [pa, pb], op, kind, n, fl, key, val, base, VAR["main"], ref))
+            out.append(R(L.module_of("s", d), "s%s_%s_%s%s" % (op, d, fs, fe), [pa, pb], op, kind, n, fl, key, val, base, VAR["main"], ref))
             if c["decl"] == "typed" and "o" not in (fs, fe) and "c" in (fs, fe) and all(x is None or abs(x) <= 12 for x in (pa, pb)):
-                out.append(R("c15sl", "s%s_%s_%s%s" % (op, d, fs.replace("c", "i"), fe.replace("c", "i")), [pa, pb], op, kind, n, fl,
+                out.append(R(L.module_of("s", d), "s%s_%s_%s%s" % (op, d, fs.replace("c", "i"), fe.replace("c", "i")), [pa, pb], op, kind, n, fl,
                              key, val, base, VAR["int-typed"], ref))
             if "o" not in (fs, fe) and pa in L.SLICE_CONSTS and pb in L.SLICE_CONSTS:
                 out.append(R(kmod, "s%sk_%s_%s_%s" % (op, d, L.kname(pa), L.kname(pb)), [], op, kind, n, fl, key, val,
@@ -154,7 +154,7 @@ def realise_slice(rec, rng, out, skipped):
             if (isinstance(pa, int) and fs == "o" or isinstance(pb, int) and fe == "o") and rng.random() < 0.2:
                 qa = L.Ix(pa) if isinstance(pa, int) and fs == "o" else pa
                 qb = L.Ix(pb) if isinstance(pb, int) and fe == "o" else pb
-                out.append(R("c15sl", "s%s_%s_%s%s" % (op, d, fs, fe), [qa, qb], op, kind, n, fl, slice(qa, qb), val,
+                out.append(R(L.module_of("s", d), "s%s_%s_%s%s" % (op, d, fs, fe), [qa, qb], op, kind, n, fl, slice(qa, qb), val,
                              base, VAR["index-object"], ref))
 
 
@@ -328,7 +328,7 @@ def run(tier, seed):
     core.scratch(), core.subdir("tlc"), core.subdir("build")   # created once, before the worker threads need them
     pool = concurrent.futures.ThreadPoolExecutor(max_workers=8)
     tpool = concurrent.futures.ThreadPoolExecutor(max_workers=2 if tier == "quick" else 1)
-    f_build = pool.submit(core.build_many, [core.BuildSpec(k, v) for k, v in sorted(mods.items())], None, 5)
+    f_build = pool.submit(core.build_many, [core.BuildSpec(k, v) for k, v in sorted(mods.items())], None, 7)
     w = 6 if tier == "quick" else 10
     f_tlc = [(p, cfg, tpool.submit(core.tlc, "SeqIndex", cfg, w, None, 1500 if tier == "quick" else 5000)) for p, cfg in RUNS[tier]]
     f_strict = tpool.submit(core.tlc, "SeqIndex", "SeqIndex_strict", 2, None, 600)
